@@ -132,7 +132,80 @@ def reuse_case(a):
         if bytes(msg) != m0 or bytes(dst) != d0:
             got = ("arguments-mutated", [len(msg), len(dst)])
         out.append((step, exp, got))
+    # the same contents as instances of a proper subclass of bytes (as hexbytes.HexBytes is)
+    got = _call(Hm.expand_message_xmd, TaggedBytes(m0), TaggedBytes(d0), a["n"], getattr(hashlib, a["h"]))
+    got = ("ok", bytes(got[1])) if got[0] == "ok" and isinstance(got[1], (bytes, bytearray)) else got
+    out.append((3, ("ok", h2c.expand_message_xmd(m0, d0, a["n"], a["h"])), got))
     return out
+
+
+class TaggedBytes(bytes):
+    __slots__ = ()
+
+
+def _param_hashes():
+    import functools
+    return [("blake2b(digest_size=32)", functools.partial(hashlib.blake2b, digest_size=32)),
+            ("blake2b(digest_size=48)", functools.partial(hashlib.blake2b, digest_size=48)),
+            ("blake2s(digest_size=16)", functools.partial(hashlib.blake2s, digest_size=16)),
+            ("blake2b(key=...)", functools.partial(hashlib.blake2b, key=b"k" * 16)),
+            ("blake2b(person=...)", functools.partial(hashlib.blake2b, person=b"py_ecc")),
+            ("new('sha256')", functools.partial(hashlib.new, "sha256")),
+            ("lambda sha384", lambda b=b"": hashlib.sha384(b))]
+
+
+def _buffers(m0):
+    """[(label, object)] the same bytes held in other buffer types the unmodified function hashes"""
+    import array
+    out = [("memoryview", memoryview(m0)), ("memoryview-of-bytearray", memoryview(bytearray(m0)))]
+    if len(m0) and len(m0) % 2 == 0:
+        out.append(("memoryview.cast('H')", memoryview(m0).cast("H")))
+        out.append(("array('H')", array.array("H", m0)))
+    if len(m0) and len(m0) % 8 == 0:
+        out.append(("memoryview.cast('Q')", memoryview(m0).cast("Q")))
+        out.append(("memoryview 2-D", memoryview(m0).cast("B", (len(m0) // 4, 4))))
+    out.append(("array('B')", array.array("B", m0)))
+    return out
+
+
+def exotic_case(a):
+    """[(label, expected, observed)]: parametrised hash constructors; message in other buffer types"""
+    Hm = importlib.import_module("py_ecc.bls.hash")
+    m0, d0, n = _msg(a["lm"], 1), _msg(a["ld"], 2), a["n"]
+    out = []
+    for lbl, hc in _param_hashes():
+        exp = ("ok", h2c.expand_message_xmd(m0, d0, n, hc))
+        got = _call(Hm.expand_message_xmd, m0, d0, n, hc)
+        out.append(("hash=" + lbl, exp, ("ok", bytes(got[1])) if got[0] == "ok" and isinstance(got[1], (bytes, bytearray)) else got))
+    exp = ("ok", h2c.expand_message_xmd(m0, d0, n, "sha256"))
+    for lbl, buf in _buffers(m0):
+        got = _call(Hm.expand_message_xmd, buf, d0, n, hashlib.sha256)
+        got = ("ok", bytes(got[1])) if got[0] == "ok" and isinstance(got[1], (bytes, bytearray)) else got
+        if got[0] == "raise":
+            continue  # a buffer type the function does not take is outside the statement (byte strings)
+        out.append(("message as " + lbl, exp, got))
+    return out
+
+
+def task_exotic(a, env):
+    r = R("expand_message_xmd:parametrised-hashes-and-buffer-types")
+    for (lm, ld, n) in ((3, 5, 40), (0, 0, 1), (16, 43, 100), (64, 255, 33), (1, 1, 0), (8, 8, 256)):
+        c = {"lm": lm, "ld": ld, "n": n}
+        for lbl, exp, got in exotic_case(c):
+            r.ev += 1
+            r.dk.add((lm, ld, n, lbl))
+            if exp != got:
+                r.viol("C15:xmd:%s" % ("parametrised-hash" if lbl.startswith("hash=") else "buffer-type"), ME + ":replay_exotic",
+                       dict(c, label=lbl), exp, got, note=lbl)
+    r.sample({"hash": "functools.partial(hashlib.blake2b, digest_size=32)", "message": "memoryview(b).cast('H')"})
+    return r
+
+
+def replay_exotic(a):
+    for lbl, exp, got in exotic_case(a):
+        if lbl == a["label"] and exp != got:
+            return {"case": lbl, "expected": exp, "observed": got}
+    return None
 
 
 def task_xmd_reuse(a, env):
@@ -145,7 +218,7 @@ def task_xmd_reuse(a, env):
                 r.dk.add((hn, lm, ld, n, step))
                 if exp != got:
                     r.viol("C15:xmd:bytearray-reuse:%s" % ("mutated" if got[0] == "arguments-mutated" else "wrong-bytes"),
-                           ME + ":replay_reuse", c, exp, got, note="call %d of 3" % step)
+                           ME + ":replay_reuse", c, exp, got, note="call %d of 4" % step)
                     break
     r.sample({"sequence": "expand_message_xmd(bytearray msg, bytearray DST) x 3 on the same objects", "hashes": a["hs"]})
     return r
@@ -225,6 +298,7 @@ def run(ctx):
     for h1 in hashes:
         tasks.append(("xmd_pairs", {"h1s": [h1], "h2s": hashes}))
     tasks.append(("xmd_reuse", {"hs": ["sha256", "sha512", "sha3_256"]}))
+    tasks.append(("exotic", {}))
     # very long messages at power-of-two sizes (chunked / streamed hashing boundaries)
     for hn in ("sha256", "sha512"):
         for lm in ([1 << 20, (1 << 22) - 1, 1 << 22, (1 << 22) + 1, 1 << 23] + ([] if q else [1 << 24, 3 << 22])):
